@@ -1145,6 +1145,103 @@ def gen_consts(root):
     return '\n'.join(out) + '\n'
 
 
+def gen_thresholds(root):
+    """numeric constants of the geometry code that the hand-written model carries as literals; the Properties files
+    hold `decide` theorems that the model's literal equals the value regenerated here"""
+    import re as _re
+    src_dir = os.path.join(root, 'crates', 'svgbob', 'src')
+    out = ['-- GENERATED by tools/gen_tables.py from util.rs, line.rs, direction.rs, cell_grid.rs, cell.rs — do not edit',
+           'namespace Svgbob.Gen', '']
+
+    def milli(v):
+        fr = Fraction(v) * 1000
+        if fr.denominator != 1:
+            raise GenError('thresholds', 1, 'literal %s is not a whole number of milli-units' % v)
+        return fr.numerator
+
+    # cell size and grid pitch
+    p = os.path.join(src_dir, 'buffer', 'cell_buffer', 'cell', 'cell_grid.rs')
+    src = read(p)
+    dims = {}
+    for fn in ('width', 'height'):
+        m = _re.search(r'pub fn %s\(\) -> f32 \{\s*([0-9.]+)\s*\}' % fn, src)
+        if not m:
+            raise GenError(p, 1, 'cannot find CellGrid::%s' % fn)
+        dims[fn] = m.group(1)
+    for fn in ('horizontal_slices', 'vertical_slices'):
+        m = _re.search(r'fn %s\(\) -> usize \{\s*([0-9]+)\s*\}' % fn, src)
+        if not m:
+            raise GenError(p, 1, 'cannot find CellGrid::%s' % fn)
+        dims[fn] = int(m.group(1))
+    out.append('def cellWidthMilli : Int := %d' % milli(dims['width']))
+    out.append('def cellHeightMilli : Int := %d' % milli(dims['height']))
+    out.append('def horizontalSlices : Nat := %d' % dims['horizontal_slices'])
+    out.append('def verticalSlices : Nat := %d' % dims['vertical_slices'])
+    ux = Fraction(dims['width']) * 1000 / dims['horizontal_slices']
+    # util::is_collinear: `cross.abs() * F < E`  ->  |cross| < E / F  (milli-units squared)
+    p = os.path.join(src_dir, 'util.rs')
+    src = read(p)
+    m = _re.search(r'pub fn is_collinear.*?cross\.abs\(\)\s*\*\s*([0-9.]+)\s*<\s*([0-9.]+)', src, _re.S)
+    if not m:
+        raise GenError(p, 1, 'cannot find the comparison of is_collinear')
+    lim = Fraction(m.group(2)) / Fraction(m.group(1)) * 1000000
+    if lim.denominator != 1:
+        raise GenError(p, 1, 'collinearity limit is not integral in milli-units squared')
+    out.append('/-- `is_collinear`: |cross product| below this (milli-units squared) -/')
+    out.append('def collinearCrossLimit : Int := %d' % lim.numerator)
+    # Line::merge_circle / can_merge_circle
+    p = os.path.join(src_dir, 'buffer', 'fragment_buffer', 'fragment', 'line.rs')
+    src = read(p)
+    facs = _re.findall(r'<=\s*threshold_length\s*\*\s*([0-9.]+)', src)
+    if len(facs) < 2 or len(set(facs)) != 1:
+        raise GenError(p, 1, 'expected one common factor in `<= threshold_length * F`, found %r' % facs)
+    fr = Fraction(facs[0])
+    out.append('/-- `merge_circle`: an end point within this fraction of the threshold length is close -/')
+    out.append('def mergeCircleFactor : Int × Int := (%d, %d)' % (fr.numerator, fr.denominator))
+    m = _re.search(r'circle\.radius\s*<=\s*Cell::unit\((\d+)\)', src)
+    if not m:
+        raise GenError(p, 1, 'cannot find the radius bound of merge_circle')
+    rb = ux * int(m.group(1))
+    out.append('/-- `merge_circle`: largest bullet radius that merges (milli-units) -/')
+    out.append('def mergeCircleMaxRadius : Int := %d' % rb.numerator)
+    m = _re.search(r'fn line_angle\(&self\) -> f32 \{.*?match angle \{(.*?)\n        \}', src, _re.S)
+    if not m:
+        raise GenError(p, 1, 'cannot find line_angle')
+    buckets = _re.findall(r'(\d+)\.\.=(\d+)\s*=>\s*([0-9.]+)', m.group(1))
+    if len(buckets) < 8:
+        raise GenError(p, 1, 'line_angle has only %d buckets' % len(buckets))
+    out.append('/-- `line_angle`: (from, to, angle in milli-degrees) -/')
+    out.append('def lineAngleBuckets : List (Nat × Nat × Nat) := [' +
+               ', '.join('(%s, %s, %d)' % (a, b, milli(v)) for a, b, v in buckets) + ']')
+    m = _re.search(r'fn heading\(&self\) -> Direction \{.*?match .*? \{(.*?)\n        \}', src, _re.S)
+    if not m:
+        raise GenError(p, 1, 'cannot find heading')
+    heads = _re.findall(r'(\d+)\s*=>\s*Direction::(\w+)', m.group(1))
+    if len(heads) < 8:
+        raise GenError(p, 1, 'heading has only %d arms' % len(heads))
+    out.append('/-- `heading`: rounded angle -> direction -/')
+    out.append('def headingOfAngle : List (Nat × String) := [' + ', '.join('(%s, "%s")' % (a, d) for a, d in heads) + ']')
+    # Direction::threshold_length
+    p = os.path.join(src_dir, 'buffer', 'fragment_buffer', 'direction.rs')
+    src = read(p)
+    m = _re.search(r'fn threshold_length\(&self\) -> f32 \{\s*match self \{(.*?)\n        \}', src, _re.S)
+    if not m:
+        raise GenError(p, 1, 'cannot find threshold_length')
+    arms = _re.findall(r'((?:Direction::\w+\s*\|?\s*)+)=>\s*CellGrid::(\w+)\(\)', m.group(1))
+    pairs = []
+    for ds, fn in arms:
+        for d in _re.findall(r'Direction::(\w+)', ds):
+            pairs.append((d, fn))
+    if len(pairs) != 8:
+        raise GenError(p, 1, 'threshold_length covers %d directions' % len(pairs))
+    out.append('/-- `Direction::threshold_length`: direction -> CellGrid length used -/')
+    out.append('def thresholdLengthOf : List (String × String) := [' +
+               ', '.join('("%s", "%s")' % pr for pr in sorted(pairs)) + ']')
+    out.append('')
+    out.append('end Svgbob.Gen')
+    return '\n'.join(out) + '\n'
+
+
 def main(argv):
     if len(argv) != 3:
         sys.stderr.write('usage: gen_tables.py <repo_root> <out_dir>\n')
@@ -1170,6 +1267,7 @@ def main(argv):
         skip, crows = pc.circle_table()
         circle_lean = render_circle(p, skip, crows)
         consts_lean = gen_consts(root)
+        thresholds_lean = gen_thresholds(root)
     except GenError as e:
         sys.stderr.write('error: %s\n' % e)
         return 1
@@ -1177,7 +1275,8 @@ def main(argv):
     os.makedirs(out_dir, exist_ok=True)
     status = []
     for name, content in (('AsciiTable.lean', ascii_lean), ('UnicodeTable.lean', unicode_lean),
-                          ('CircleArt.lean', circle_lean), ('Consts.lean', consts_lean)):
+                          ('CircleArt.lean', circle_lean), ('Consts.lean', consts_lean),
+                          ('Thresholds.lean', thresholds_lean)):
         changed = write_if_changed(os.path.join(out_dir, name), content)
         status.append('%s %s' % (name, 'written' if changed else 'unchanged'))
 
